@@ -448,4 +448,38 @@ def SchedLit.announcedLevel (s : SchedLit) : Nat := s.residualQ - 1
 def SchedLit.newEvaluatorChecks (s : SchedLit) : Bool :=
   decide (s.c2sLevelQ - s.c2sGroups = s.mod1LevelQ) && decide (s.mod1LevelQ - s.mod1Depth = s.s2cLevelQ)
 
+/-! ## 7. Levels the evaluator needs from every key, for every admissible input level -/
+
+/-- smallest `LevelQ` a key must have so that no gadget product silently clamps the ciphertext
+    (`GadgetProduct` works at `min(levelQ, key.LevelQ())`), over all input levels `0 … residual max`:
+    * `EvkN1ToN2` / `EvkRealToCmplx`: applied to the INPUT at its level (up to the residual maximum)
+      before `ScaleDown`; `EvkN2ToN1` / `EvkCmplxToReal`: applied to the OUTPUT at the residual maximum;
+    * `EvkDenseToSparse`: applied after `ScaleDown`, at level 0;
+    * `rlk`: first used by `EvalMod` at `Mod1.LevelQ`;
+    * `EvkSparseToDense` (`GadgetProductHoisted(levelQ = QCount-1, …)`) and the Galois keys
+      (`Trace` after `ModUp`, CoeffsToSlots at `C2S.LevelQ = MaxLevel`): the full chain. -/
+def neededLevelQ (s : SchedLit) (name : String) : Int :=
+  if name = "EvkN1ToN2" ∨ name = "EvkN2ToN1" ∨ name = "EvkRealToCmplx" ∨ name = "EvkCmplxToReal" then
+    (s.residualQ : Int) - 1
+  else if name = "EvkDenseToSparse" then 0
+  else if name = "rlk" then (s.mod1LevelQ : Int)
+  else (s.qCount : Int) - 1
+
+/-- `LevelP` a key must have EXACTLY (`none`: any auxiliary level works, the gadget product follows the key):
+    `EvkDenseToSparse` lives in `P[:1]`; `EvkSparseToDense` is multiplied with `BuffDecompQP` decomposed over
+    all of `P`; the Galois keys must match `LinearTransformation.LevelP = len(LogP)-1`
+    (`MultiplyByDiagMatrixBSGS` returns an error otherwise). -/
+def neededLevelP (s : SchedLit) (name : String) : Option Int :=
+  if name = "EvkN1ToN2" ∨ name = "EvkN2ToN1" ∨ name = "EvkRealToCmplx" ∨ name = "EvkCmplxToReal" ∨ name = "rlk" then none
+  else if name = "EvkDenseToSparse" then some 0
+  else some ((s.pCount : Int) - 1)
+
+/-- the key summary of a literal with layout `s` -/
+def SchedLit.keyLit (s : SchedLit) (ephemeral ringDiffers conjInv : Bool) : KeyLit :=
+  { qCount := s.qCount, pCount := s.pCount, ephemeral := ephemeral, ringDiffers := ringDiffers, conjInv := conjInv }
+
+/-- a key has what the evaluator needs -/
+def KeyRec.sufficient (s : SchedLit) (k : KeyRec) : Prop :=
+  neededLevelQ s k.name ≤ k.levelQ ∧ ∀ lp, neededLevelP s k.name = some lp → k.levelP = lp
+
 end Lattigo.Model.Bootstrap
